@@ -218,4 +218,33 @@ theorem optV_view (c : Array Instr) :
       simp only [Option.map_some]
       exact congrArg some this
 
+/-- the static scan on the dump is the static scan on the interpreter code -/
+theorem wfCheckView_view (c : Array Instr) : wfCheckView (c.map view) = wfCheck c := by
+  unfold wfCheckView wfCheck
+  simp only [Array.size_map, Array.getElem?_map]
+  congr 1
+  · congr 1
+    funext pc
+    cases hc : c[pc]? with
+    | none => rfl
+    | some ins =>
+      simp only [Option.map_some]
+      congr 1
+      · cases ins <;> simp only [view, opName, intOperand, callTarget] <;> first
+          | rfl
+          | (rename_i t
+             show (decide (0 ≤ t) && _) = (decide (0 ≤ t) && _)
+             congr 1
+             cases c[t.toNat]? with
+             | none => rfl
+             | some sc => cases sc <;> rfl)
+      · cases ins <;> rfl
+  · cases c.size with
+    | zero => rfl
+    | succ n =>
+      simp only
+      cases c[n]? with
+      | none => rfl
+      | some i => cases i <;> rfl
+
 end Gojq.OptVM
